@@ -19,7 +19,8 @@ generated rendering (harness self-check: renderer and expectation agree).
 
 Families
   A  every annotation name x documented option shape (and unknown names) at each of the three
-     positions (identifier / parameter / Returns) in a fixed skeleton, under every layout
+     positions (identifier / parameter / Returns) in a fixed skeleton, plus every identifier form
+     and plain symbols whose names merely begin with SECTION / ACTION, under every layout
   P  ordered pairs of annotations in one field, under every annotation-relevant layout
   B  every model built from an identifier menu x <=2 parameters x description menu x <=2 tags,
      under a covering set of layouts (quick) / a larger product (thorough)
